@@ -1147,6 +1147,9 @@ def _bound_var(load: ast.AST) -> str:
     param = _size_param(load)
     copies = {st.targets[0].id for st in ast.walk(load) if isinstance(st, ast.Assign) and len(st.targets) == 1 and isinstance(st.targets[0], ast.Name)
               and isinstance(st.value, ast.Name) and st.value.id == param}
+    # the byte counter (`remaining = size; ... remaining -= len(p.raw)`) starts as a copy too, but it is not the bound
+    counters = {_acc_info(st)[0] for st in ast.walk(load) if isinstance(st, (ast.Assign, ast.AugAssign)) and _acc_info(st) is not None}
+    copies -= counters
     if not copies:
         return param
     in_tests: Set[str] = set()
@@ -1158,13 +1161,31 @@ def _bound_var(load: ast.AST) -> str:
     return next(iter(copies & in_tests))
 
 
-def _is_size_none_test(test: ast.AST, size: str) -> Optional[bool]:
+def _none_names(fn: ast.AST, size: str) -> Set[str]:
+    """locals that are None exactly when the size is: the size variable itself and a byte counter that starts as a plain copy of
+    it and is only ever changed by subtracting lengths (`remaining = size; ... remaining -= len(p.raw)`)"""
+    out = {size}
+    for st in ast.walk(fn):
+        if isinstance(st, ast.Assign) and len(st.targets) == 1 and isinstance(st.targets[0], ast.Name) and isinstance(st.value, ast.Name) and st.value.id == size:
+            c = st.targets[0].id
+            other = [a for a in ast.walk(fn) if a is not st and isinstance(a, (ast.Assign, ast.AugAssign, ast.AnnAssign)) and any(
+                isinstance(x, ast.Name) and x.id == c and isinstance(x.ctx, ast.Store) for t_ in (a.targets if isinstance(a, ast.Assign) else [a.target]) for x in ast.walk(t_))]
+            if other and all(_acc_info(a) == (c, True) for a in other):
+                out.add(c)
+    return out
+
+
+_NONE_NAMES: Dict[int, Set[str]] = {}
+
+
+def _is_size_none_test(test: ast.AST, size) -> Optional[bool]:
     """truth value of the test when size is not None, if the test is about that"""
     t = simplify(from_ast(test))
-    if t == ("op", "is", N(size), C(None)):
-        return False
-    if t == ("op", "not", ("op", "is", N(size), C(None))):
-        return True
+    for nm in ([size] if isinstance(size, str) else sorted(size)):
+        if t == ("op", "is", N(nm), C(None)):
+            return False
+        if t == ("op", "not", ("op", "is", N(nm), C(None))):
+            return True
     return None
 
 
@@ -1199,7 +1220,7 @@ def _prune_size_none(g: CFG, size: str) -> Set[Tuple[int, str]]:
     dead = set()
     for nd in g.nodes:
         if nd.kind == "test" and isinstance(nd.stmt, ast.If):
-            tv = _is_size_none_test(nd.stmt.test, size)
+            tv = _is_size_none_test(nd.stmt.test, _none_names(g.fn, size))
             if tv is not None:
                 dead.add((nd.id, "false" if tv else "true"))
     return dead
@@ -1306,7 +1327,7 @@ def rule_S1(ctx, rule: str = "S1") -> None:
                     # remaining = size  /  size if size is not None else <anything>: nothing read yet, size >= 0
                     v = st.value
                     if isinstance(v, ast.IfExp):
-                        tv = _is_size_none_test(v.test, size)
+                        tv = _is_size_none_test(v.test, _none_names(load, size))
                         v = v.body if tv is True else (v.orelse if tv is False else v)
                     if isinstance(v, ast.Name) and v.id == size:
                         return frozenset((LT, EQ)), True
@@ -1338,7 +1359,7 @@ def rule_S1(ctx, rule: str = "S1") -> None:
                 want = not want
             t = t[2]
         r, z = N(counter), N(size)
-        if t == ("op", "is", z, C(None)):
+        if t[0] == "op" and t[1] == "is" and len(t) == 4 and t[3] == C(None) and t[2][0] == "n" and t[2][1] in _none_names(load, size):
             return None if want else s
         if t[0] == "op" and t[1] in ("and", "or"):
             parts = list(t[2:])
